@@ -279,8 +279,46 @@ def older_handler_cases(ctx, n):
                 break
 
 
+def dimension_history(ctx):
+    """one evaluator with global Dice and centre-line Dice sees a 1-D pair and a 4-D pair (for which the centre-line Dice is not defined; whatever
+    that call does), then an ordinary 2-D and a 3-D pair: the global metrics of those are what a fresh evaluator reports"""
+    gm = ["DSC", "clDSC"]
+    cfg = E.mk_cfg("MATCHED", ["IOU"])
+    with impl.quiet():
+        ev = impl.mk_evaluator(cfg, global_metrics=gm)
+    one = np.array([0, 1, 1, 0, 2, 2, 0], np.uint8)
+    four = np.zeros((2, 2, 3, 3), np.uint8)
+    four[0, 0, 0:2, 0:2] = 1
+    two = np.zeros((6, 9), np.uint8)
+    two[1:5, 1:4], two[2:4, 6:8] = 1, 2
+    three = np.zeros((4, 5, 6), np.uint8)
+    three[1:3, 1:4, 1:5] = 1
+    for a in (one, four):
+        E.run_impl(cfg, np.roll(a, 1, axis=-1), a, global_metrics=gm, evaluator=ev)
+    for a in (two, three, two):
+        p = np.roll(a, 1, axis=-1)
+        used = E.run_impl(cfg, p, a, global_metrics=gm, evaluator=ev)
+        fresh = E.run_impl(cfg, p, a, global_metrics=gm)
+        inp = {"shape": list(a.shape), "dtype": "uint8", "pred": gen.arr_json(p), "ref": gen.arr_json(a), "cfg": cfg, "global_metrics": gm, "dimension_history": True}
+        ctx.case(inp, True)
+        ctx.count("global_metrics_after_other_dimensionalities")
+        if isinstance(used, str) or isinstance(fresh, str):
+            if used != fresh:
+                ctx.violation(f"after a 1-D and a 4-D pair the evaluator answers {used if isinstance(used, str) else 'a result'} where a fresh one answers "
+                              f"{fresh if isinstance(fresh, str) else 'a result'}", inp, key={"kind": "global-value"})
+            continue
+        for m in gm:
+            k = "global_bin_" + m.lower()
+            u, f = used["ungrouped"][k], fresh["ungrouped"][k]
+            if isinstance(u, str) != isinstance(f, str) or (not isinstance(u, str) and not same_value(u, f)) or (isinstance(u, str) and u != f):
+                ctx.violation(f"{k} of a {a.ndim}-D pair is {u} from an evaluator that saw a 1-D and a 4-D pair before, {f} from a fresh evaluator", inp,
+                              impl={"used": u, "fresh": f}, key={"kind": "global-value"})
+                break
+
+
 def run(ctx):
     corpus(ctx)
+    dimension_history(ctx)
     older_handler_cases(ctx, ctx.scale(25, 200))
     voxel_count_corpus(ctx)
     optimized_cases(ctx, ctx.scale(25, 150))
@@ -323,6 +361,9 @@ def replay(ctx, rec):
     i = rec["input"]
     if i.get("mode") == "python -O":
         optimized_cases(ctx, 40)
+        return
+    if i.get("dimension_history"):
+        dimension_history(ctx)
         return
     if "handlers" in i and "used" in i:
         older_handler_cases(ctx, 40)
